@@ -259,9 +259,15 @@ def run(ctx):
                     try:
                         Fm = calc_field(dP, sphz, illum_polarization=polv, theory=ms, **opts).values
                         d = rel(F, Fm, fs)
-                        evs.append({"event": "Relation", "xcls": c["x"],
-                                    "rel": "field_mie_vs_multisphere" + ("_tight" if tight else ""),
-                                    "mb": quant.mb(d), "mcls": c["m"]})
+                        ev_ms = {"event": "Relation", "xcls": c["x"],
+                                 "rel": "field_mie_vs_multisphere" + ("_tight" if tight else ""),
+                                 "mb": quant.mb(d), "mcls": c["m"]}
+                        if c["x"] in ("xlarge", "huge"):
+                            # a trace of its own: a rejection here must not hide the class's other relations
+                            ev_ms["cls"] = "%s/%s/%s/%d/%s" % (c["m"], c["x"], c["pos"], c["pol"], c["opt"])
+                            traces.append([ev_ms])
+                        else:
+                            evs.append(ev_ms)
                     except Exception as e:
                         if c["x"] in ("xlarge",):
                             ctx.uncovered("Multisphere at size class xlarge: %s" % type(e).__name__)
@@ -303,7 +309,10 @@ def run(ctx):
             ctx.trace_ok()
         else:
             ev = tr[line - 1]
-            ctx.violation("relation/%s" % ev["rel"], {"event": ev, "clauses": clauses})
+            key = "relation/%s" % ev["rel"]
+            if ev["rel"].startswith("field_mie_vs_multisphere") and ev.get("xcls") in ("xlarge", "huge"):
+                key += "/" + ev["xcls"]          # beyond the compiled expansion order: a finding of its own
+            ctx.violation(key, {"event": ev, "clauses": clauses})
     ctx.notes["worst_mb_per_relation"] = worst
     ctx.exhaustive = False
 
